@@ -302,11 +302,31 @@ class PathEnum:
     """
 
     def __init__(self, fn: Fn, is_event: Callable[[ast.AST], Optional[str]],
-                 may_raise: Optional[Callable[[ast.stmt], bool]] = None):
+                 may_raise: Optional[Callable[[ast.stmt], bool]] = None, inline_depth: int = 0,
+                 _stack: Tuple[int, ...] = ()):
         self.fn = fn
         self.is_event = is_event
         self.may_raise = may_raise or self._default_may_raise
         self.count = 0
+        self.inline_depth = inline_depth
+        self._stack = _stack + (id(fn),)
+        self._inline_cache: Dict[int, List[Tuple[Tuple[Tuple[str, ast.AST], ...], bool]]] = {}
+
+    def _callee_alternatives(self, callee: Fn):
+        """Event sequences a call of the local helper `callee` can produce: [(events, raised?)]."""
+        k = id(callee)
+        if k not in self._inline_cache:
+            sub = PathEnum(callee, self.is_event, None, self.inline_depth - 1, self._stack)
+            alts = []
+            seen = set()
+            for p in sub.run():
+                key = (tuple(x for x, _ in p.events), p.end == "raise")
+                if key in seen:
+                    continue
+                seen.add(key)
+                alts.append((tuple(p.events), p.end == "raise"))
+            self._inline_cache[k] = alts or [((), False)]
+        return self._inline_cache[k]
 
     @staticmethod
     def _default_may_raise(st: ast.stmt) -> bool:
@@ -345,16 +365,45 @@ class PathEnum:
             lab = self.is_event(n)
             if lab:
                 out.append((lab, n))
+            elif self.inline_depth > 0 and isinstance(n, ast.Call) and isinstance(n.func, ast.Name):
+                callee = self.fn.resolve_local_def(n.func.id)
+                if callee is not None and callee.is_func and id(callee) not in self._stack:
+                    out.append(("@inline", callee))
 
         go(e)
         return out
 
     def add_events(self, paths: List[Path], e: Optional[ast.AST]) -> List[Path]:
         ev = self.events_of_expr(e)
-        if ev:
+        if not ev:
+            return paths
+        if not any(lab == "@inline" for lab, _ in ev):
             for p in paths:
                 p.events.extend(ev)
-        return paths
+            return paths
+        cur = paths
+        for lab, node in ev:
+            if lab != "@inline":
+                for p in cur:
+                    if p.end == "fall":
+                        p.events.append((lab, node))
+                continue
+            alts = self._callee_alternatives(node)
+            nxt: List[Path] = []
+            for p in cur:
+                if p.end != "fall":
+                    nxt.append(p)
+                    continue
+                for events, raised in alts:
+                    q = p.copy() if len(alts) > 1 else p
+                    q.events.extend(events)
+                    if raised:
+                        q.end = "raise"
+                    nxt.append(q)
+            cur = nxt
+            if len(cur) > MAX_PATHS:
+                raise AnalysisError(f"path explosion while inlining in {self.fn.ref}")
+        return cur
 
     def _assigned_names(self, st: ast.stmt) -> set:
         out = set()
@@ -519,8 +568,9 @@ class PathEnum:
         if isinstance(st, ast.Return):
             paths = self.add_events(paths, st.value)
             for p in paths:
-                p.end = "return"
-                p.ret = st.value
+                if p.end == "fall":
+                    p.end = "return"
+                    p.ret = st.value
             return paths
         if isinstance(st, ast.Raise):
             paths = self.add_events(paths, st.exc)
@@ -537,17 +587,24 @@ class PathEnum:
             return paths
         if isinstance(st, ast.If):
             paths = self.add_events(paths, st.test)
+            ended = [p for p in paths if p.end != "fall"]
+            paths = [p for p in paths if p.end == "fall"]
             t = self.block(st.body, self.decide(paths, st.test, True))
             f = self.block(st.orelse, self.decide(paths, st.test, False))
-            return t + f
+            return t + f + ended
         if isinstance(st, (ast.While, ast.For, ast.AsyncFor)):
+            ended0: List[Path] = []
             if isinstance(st, ast.While):
                 paths = self.add_events(paths, st.test)
+                ended0 = [p for p in paths if p.end != "fall"]
+                paths = [p for p in paths if p.end == "fall"]
                 const_true = isinstance(st.test, ast.Constant) and bool(st.test.value)
                 zero = [] if const_true else self.decide(paths, st.test, False)
                 one_in = self.decide(paths, st.test, True)
             else:
                 paths = self.add_events(paths, st.iter)
+                ended0 = [p for p in paths if p.end != "fall"]
+                paths = [p for p in paths if p.end == "fall"]
                 zero = [p.copy() for p in paths]
                 one_in = [p.copy() for p in paths]
             one = self.block(st.body, one_in)
@@ -567,11 +624,12 @@ class PathEnum:
                 else:
                     out.append(p)
             zero = self.block(st.orelse, zero) if st.orelse else zero
-            return out + zero
+            return out + zero + ended0
         if isinstance(st, (ast.With, ast.AsyncWith)):
             for it in st.items:
                 paths = self.add_events(paths, it.context_expr)
-            return self.block(st.body, paths)
+            ended = [p for p in paths if p.end != "fall"]
+            return self.block(st.body, [p for p in paths if p.end == "fall"]) + ended
         if isinstance(st, ast.Try):
             return self.try_(st, paths)
         # simple statement: events of its expressions, then the statement itself
@@ -581,7 +639,8 @@ class PathEnum:
         lab = self.is_event(st)
         if lab:
             for p in paths:
-                p.events.append((lab, st))
+                if p.end == "fall":
+                    p.events.append((lab, st))
         self.kill(paths, st)
         return paths
 
@@ -636,5 +695,5 @@ class PathEnum:
         return results
 
 
-def paths(fn: Fn, is_event: Callable[[ast.AST], Optional[str]], may_raise=None) -> List[Path]:
-    return PathEnum(fn, is_event, may_raise).run()
+def paths(fn: Fn, is_event: Callable[[ast.AST], Optional[str]], may_raise=None, inline_depth: int = 0) -> List[Path]:
+    return PathEnum(fn, is_event, may_raise, inline_depth).run()
